@@ -1,1 +1,277 @@
-pub fn placeholder() {}
+//! Reference models — written from the documentation / published formulas, no
+//! dependency on yata. Every quantity is a value with an error radius (`Q`); checks
+//! are containment checks `|observed - value| <= radius` (DESIGN.md §4).
+
+use std::sync::atomic::{AtomicU64, Ordering};
+
+pub mod methods;
+
+static EPS_BITS: AtomicU64 = AtomicU64::new(0x3CB0_0000_0000_0000); // 2^-52
+
+/// machine epsilon of the implementation's value type (2^-52 or 2^-23)
+pub fn set_eps(e: f64) {
+	EPS_BITS.store(e.to_bits(), Ordering::Relaxed);
+}
+pub fn eps() -> f64 {
+	f64::from_bits(EPS_BITS.load(Ordering::Relaxed))
+}
+
+/// value ± radius. `r = INFINITY` means "formula undefined here" (exempt).
+#[derive(Clone, Copy, Debug, PartialEq)]
+pub struct Q {
+	pub v: f64,
+	pub r: f64,
+}
+
+impl Q {
+	pub const fn exact(v: f64) -> Self {
+		Self { v, r: 0.0 }
+	}
+	pub const fn new(v: f64, r: f64) -> Self {
+		Self { v, r }
+	}
+	pub const fn undefined() -> Self {
+		Self { v: f64::NAN, r: f64::INFINITY }
+	}
+	pub fn is_defined(&self) -> bool {
+		self.r.is_finite() && self.v.is_finite()
+	}
+	pub fn lo(&self) -> f64 {
+		self.v - self.r
+	}
+	pub fn hi(&self) -> f64 {
+		self.v + self.r
+	}
+	/// containment with outward rounding
+	pub fn contains(&self, x: f64) -> bool {
+		if !self.is_defined() {
+			return true;
+		}
+		if !x.is_finite() {
+			return false;
+		}
+		(x - self.v).abs() <= self.r * (1.0 + 4.0 * eps()) + f64::MIN_POSITIVE
+	}
+	pub fn widen(self, extra: f64) -> Self {
+		Self { v: self.v, r: self.r + extra }
+	}
+	fn op(v: f64, r: f64) -> Self {
+		if !v.is_finite() || !r.is_finite() {
+			return Self::undefined();
+		}
+		Self { v, r: r + 4.0 * eps() * v.abs() }
+	}
+	pub fn abs(self) -> Self {
+		if !self.is_defined() {
+			return Self::undefined();
+		}
+		Self { v: self.v.abs(), r: self.r }
+	}
+	pub fn sqrt(self) -> Self {
+		if !self.is_defined() {
+			return Self::undefined();
+		}
+		let lo = self.lo().max(0.0).sqrt();
+		let hi = self.hi().max(0.0).sqrt();
+		let v = self.v.max(0.0).sqrt();
+		Self::op(v, (hi - v).max(v - lo))
+	}
+	pub fn max(self, o: Self) -> Self {
+		if !self.is_defined() || !o.is_defined() {
+			return Self::undefined();
+		}
+		let v = self.v.max(o.v);
+		let hi = self.hi().max(o.hi());
+		let lo = self.lo().max(o.lo());
+		Self { v, r: (hi - v).max(v - lo) }
+	}
+	pub fn min(self, o: Self) -> Self {
+		-((-self).max(-o))
+	}
+	/// multiplication by an exactly known constant
+	pub fn scale(self, k: f64) -> Self {
+		if !self.is_defined() {
+			return Self::undefined();
+		}
+		Self::op(self.v * k, self.r * k.abs())
+	}
+	pub fn recip(self) -> Self {
+		Q::exact(1.0) / self
+	}
+	/// does the interval contain `x` (used for singular denominators / thresholds)
+	pub fn straddles(&self, x: f64) -> bool {
+		!self.is_defined() || (self.lo() <= x && x <= self.hi())
+	}
+	pub fn atanh(self) -> Self {
+		if !self.is_defined() || self.lo() <= -1.0 || self.hi() >= 1.0 {
+			return Self::undefined();
+		}
+		let v = self.v.atanh();
+		let lo = self.lo().atanh();
+		let hi = self.hi().atanh();
+		Self::op(v, (hi - v).max(v - lo)).widen(8.0 * eps() * v.abs().max(1.0))
+	}
+	pub fn clamp(self, lo: f64, hi: f64) -> Self {
+		self.max(Q::exact(lo)).min(Q::exact(hi))
+	}
+}
+
+impl std::ops::Neg for Q {
+	type Output = Q;
+	fn neg(self) -> Q {
+		Q { v: -self.v, r: self.r }
+	}
+}
+impl std::ops::Add for Q {
+	type Output = Q;
+	fn add(self, o: Q) -> Q {
+		if !self.is_defined() || !o.is_defined() {
+			return Q::undefined();
+		}
+		// rounding of a sum is relative to the operands, not the (possibly cancelled) result
+		let v = self.v + o.v;
+		Q::op(v, self.r + o.r).widen(2.0 * eps() * (self.v.abs().max(o.v.abs())))
+	}
+}
+impl std::ops::Sub for Q {
+	type Output = Q;
+	fn sub(self, o: Q) -> Q {
+		self + (-o)
+	}
+}
+impl std::ops::Mul for Q {
+	type Output = Q;
+	fn mul(self, o: Q) -> Q {
+		if !self.is_defined() || !o.is_defined() {
+			return Q::undefined();
+		}
+		Q::op(self.v * o.v, self.v.abs() * o.r + o.v.abs() * self.r + self.r * o.r)
+	}
+}
+impl std::ops::Div for Q {
+	type Output = Q;
+	fn div(self, o: Q) -> Q {
+		if !self.is_defined() || !o.is_defined() || o.straddles(0.0) {
+			return Q::undefined();
+		}
+		// interval image of a/b with b bounded away from 0
+		let cands = [self.lo() / o.lo(), self.lo() / o.hi(), self.hi() / o.lo(), self.hi() / o.hi()];
+		let v = self.v / o.v;
+		let mut r: f64 = 0.0;
+		for c in cands {
+			r = r.max((c - v).abs());
+		}
+		Q::op(v, r)
+	}
+}
+impl From<f64> for Q {
+	fn from(v: f64) -> Q {
+		Q::exact(v)
+	}
+}
+
+/// A series with an infinite constant prehistory (`pad`). Only the last `cap` elements
+/// are retained (a reference never looks further back than its window); `t` counts all.
+#[derive(Clone, Debug)]
+pub struct Ser {
+	pub pad: Q,
+	pub xs: Vec<Q>,
+	/// magnitude of the whole history incl. the pad
+	pub mag: f64,
+	cap: usize,
+	count: usize,
+}
+
+impl Ser {
+	pub fn new(pad: Q) -> Self {
+		Self { pad, xs: Vec::new(), mag: pad.v.abs() + if pad.r.is_finite() { pad.r } else { 0.0 }, cap: usize::MAX, count: 0 }
+	}
+	/// retains only what a lookback of `cap` elements needs
+	pub fn with_cap(pad: Q, cap: usize) -> Self {
+		let mut s = Self::new(pad);
+		s.cap = cap.max(1);
+		s
+	}
+	pub fn exact(pad: f64) -> Self {
+		Self::new(Q::exact(pad))
+	}
+	pub fn exact_cap(pad: f64, cap: usize) -> Self {
+		Self::with_cap(Q::exact(pad), cap)
+	}
+	pub fn push(&mut self, q: Q) {
+		if q.v.is_finite() {
+			self.mag = self.mag.max(q.v.abs() + if q.r.is_finite() { q.r } else { 0.0 });
+		}
+		self.xs.push(q);
+		self.count += 1;
+		if self.cap != usize::MAX && self.xs.len() >= 2 * self.cap + 8 {
+			let cut = self.xs.len() - self.cap;
+			self.xs.drain(..cut);
+		}
+	}
+	pub fn pushv(&mut self, v: f64) {
+		self.push(Q::exact(v));
+	}
+	/// number of stream elements so far
+	pub fn t(&self) -> usize {
+		self.count
+	}
+	/// k = 0 newest, k = 1 the one before, ...; beyond the stream: the pad
+	pub fn back(&self, k: usize) -> Q {
+		if k < self.xs.len() {
+			self.xs[self.xs.len() - 1 - k]
+		} else {
+			assert!(k >= self.count, "Ser: lookback {k} beyond the retained suffix (cap {})", self.cap);
+			self.pad
+		}
+	}
+	/// last n elements, oldest first
+	pub fn last_n(&self, n: usize) -> Vec<Q> {
+		(0..n).rev().map(|k| self.back(k)).collect()
+	}
+	pub fn last(&self) -> Q {
+		self.back(0)
+	}
+}
+
+/// allowance of a window functional maintained as a running accumulator (DESIGN §4.2):
+/// 16 * eps * (t + n + 8) * sum|w| * M
+pub fn win_allow(t: usize, n: usize, sum_abs_w: f64, m: f64) -> f64 {
+	16.0 * eps() * (t + n + 8) as f64 * sum_abs_w * m
+}
+
+/// Σ w_i x_i / Σ w_i over a window (oldest first, `w` aligned with it), with the
+/// running-accumulator allowance for `t` steps of history of magnitude `m`.
+pub fn fir(win: &[Q], w: &[f64], t: usize, m: f64) -> Q {
+	assert_eq!(win.len(), w.len());
+	let sw: f64 = w.iter().sum();
+	let saw: f64 = w.iter().map(|x| x.abs()).sum();
+	if sw == 0.0 || !sw.is_finite() {
+		return Q::undefined();
+	}
+	let mut v = 0.0;
+	let mut r = 0.0;
+	for (q, wi) in win.iter().zip(w) {
+		if !q.is_defined() {
+			return Q::undefined();
+		}
+		v += wi * q.v;
+		r += wi.abs() * q.r;
+	}
+	let v = v / sw;
+	let r = r / sw.abs() + win_allow(t, win.len(), saw / sw.abs(), m);
+	if !v.is_finite() {
+		return Q::undefined();
+	}
+	Q { v, r }
+}
+
+/// recursive filter y <- y + a (x - y); radius rule R <- (1-a) R + a R_in + 8 eps max(|y|,|x|,|y_prev|)
+pub fn ema_step(y: Q, x: Q, a: f64) -> Q {
+	if !y.is_defined() || !x.is_defined() {
+		return Q::undefined();
+	}
+	let v = y.v + a * (x.v - y.v);
+	let r = (1.0 - a).abs() * y.r + a.abs() * x.r + 8.0 * eps() * v.abs().max(x.v.abs()).max(y.v.abs());
+	Q { v, r }
+}
